@@ -548,8 +548,9 @@ class SourceFinder(object):
         snr = abs(data) / rmsimg
         # mask of pixles that are above the outerclip
         a = snr >= outerclip
-        # segmentation a la scipy
-        l, n = label(a)
+        # segmentation a la scipy (8-connected, like find_islands, so that
+        # diagonally adjacent pixels of equal value form a single group)
+        l, n = label(a, structure=np.ones((3, 3)))
         f = find_objects(l)
 
         if n == 0:
